@@ -14,10 +14,10 @@ import collections
 
 MODES = ["plain", "expand_all", "pre_expand"]
 # "returns normally": parse() of an input of at most SHORT_LEN characters
-# that is still running after PARSE_BOUND_S is reported (normal time: 1 ms;
-# the quadratic scans the tokenizer has stay under a second at that size, a
-# step count exponential in the input does not).  On longer inputs a parse
-# that exceeds the bound is only counted as inconclusive.
+# that is still running after PARSE_BOUND_S is reported (normal time: 1 ms),
+# with the place it was interrupted at in the signature.  Slow parses of
+# longer inputs are counted as inconclusive: the bound is meant to separate
+# "does not return" from "slow", and for long inputs it cannot.
 PARSE_BOUND_S = 30.0
 SHORT_LEN = 600
 INCONCLUSIVE = collections.Counter()
@@ -63,7 +63,8 @@ def check_one(ctx, text, mode):
             if len(text) > SHORT_LEN:
                 INCONCLUSIVE["inconclusive:slow-parse-of-long-input"] += 1
                 return None
-            return ({"kind": "timeout", "mode": mode},
+            return ({"kind": "timeout", "mode": mode,
+                     "where": guard.LAST_WHERE},
                     f"parse() still running after {PARSE_BOUND_S:.0f} s")
         if status == "exc":
             raise root
